@@ -10,7 +10,7 @@ from ..harness import Failure, add_outcome, lib, new_result, outcome, safe_evalu
 PROPERTY = 'C01'
 LEVEL = 'exploration'
 RULE = ('E3: every simple triangle/quadrilateral (both directions) and every polyline of <=3 vertices on the GxG integer '
-        'lattice, plus a catalogue of polygons with holes, against EVERY box with edges on the half-integer lattice '
+        'lattice, plus a catalogue of polygons with holes (and, on half-integer boxes, every choice of start vertex of shell and first hole), against EVERY box with edges on the half-integer lattice '
         '[-1, G] (positive area; degenerate boxes too for point kinds), through Polygon/MultiPolygon/Line/MultiLine/'
         'Ring/MultiPoint arrays; G per tier in scope. E1 (Hypothesis): arrays of 7 kinds x 5 subtypes holding generated '
         'valid shapes (holes, multi-part touching/far/nested, collinear runs, repeated vertices) next to missing/empty '
@@ -246,6 +246,28 @@ def hole_catalogue():
     return out
 
 
+def _rot(ring, k):
+    pts = og.pts_of(ring)[:-1]
+    k %= len(pts)
+    pts = pts[k:] + pts[:k]
+    return [v for q in pts + [pts[0]] for v in q]
+
+
+def rotated_hole_catalogue():
+    """every catalogue polygon with every choice of start vertex for the shell and for the first hole (other holes follow
+    the shell's rotation): the segment a kernel would wrongly draw from the end of one ring to the start of the next
+    depends on where rings start"""
+    out = []
+    for rings in hole_catalogue():
+        if len(rings) < 2:
+            continue
+        ns, nh = len(rings[0]) // 2 - 1, len(rings[1]) // 2 - 1
+        for ks in range(ns):
+            for kh in range(nh):
+                out.append([_rot(rings[0], ks), _rot(rings[1], kh)] + [_rot(r, ks) for r in rings[2:]])
+    return out
+
+
 def enum_tasks(tier, seed):
     tasks = []
     sc = SCOPE[tier]
@@ -258,6 +280,8 @@ def enum_tasks(tier, seed):
         tasks.append({'fam': 'holes', 'G': 5, 'chunk': c, 'of': 4, 'variant': c})
     for c in range(2):
         tasks.append({'fam': 'points', 'G': 3, 'chunk': c, 'of': 2, 'variant': c})
+    for c in range(4):
+        tasks.append({'fam': 'holes-rot', 'G': 5, 'chunk': c, 'of': 4, 'variant': c})
     if tier == 'quick':
         # a seed-chosen eighth of the G=4 polygon boxes on top of the exhaustive G=3 scope
         for c in range(8):
@@ -303,6 +327,17 @@ def run_enum_task(task):
         boxes = [(a / 4, c / 4, b / 4, d / 4) for a, b in itertools.combinations(range(-2, 19), 2)
                  for c, d in itertools.combinations(range(-2, 19), 2)]
         kind, subtype = [('polygon', 'float64'), ('multipolygon', 'float64'), ('polygon', 'float32'), ('multipolygon', 'float32')][variant]
+        els = [rings if kind == 'polygon' else [rings] for rings in cat]
+        flats = [[v for r in rings for v in r] for rings in cat]
+        iels = [[og.IL(r) for r in rings] for rings in cat]
+        ofn = lambda i, ib: og.poly_box(iels[i], ib)  # noqa: E731
+    elif fam == 'holes-rot':
+        cat = rotated_hole_catalogue()
+        boxes = [(a / 2, c / 2, b / 2, d / 2) for a, b in itertools.combinations(range(-2, 11), 2)
+                 for c, d in itertools.combinations(range(-2, 11), 2)]
+        kind, subtype = [('polygon', 'float64'), ('multipolygon', 'float64'), ('polygon', 'int32'), ('multipolygon', 'float32')][variant]
+        if subtype == 'int32':
+            cat = [rings for rings in cat if all(float(v) == int(v) for r in rings for v in r)]
         els = [rings if kind == 'polygon' else [rings] for rings in cat]
         flats = [[v for r in rings for v in r] for rings in cat]
         iels = [[og.IL(r) for r in rings] for rings in cat]
